@@ -184,8 +184,8 @@ def parse_blocks(text):
     for m in re.finditer(r"(#\[test\]\nfn kani_concrete_playback_(\w+?)_\d+\(\) \{[\s\S]*?\n\}\n)", text):
         name = m.group(2)
         for h in out:
-            if h.split("::")[-1] == name:
-                out[h]["playback_test"] = m.group(1)
+            if h.split("::")[-1] == name and m.group(1) not in out[h].get("playback_test", ""):
+                out[h]["playback_test"] = out[h].get("playback_test", "") + "\n" + m.group(1)
     return out
 
 
@@ -218,9 +218,11 @@ def run_single(harness, timeout_s, extra_args=None, playback=False):
         res["verdict"] = "inconclusive"
         res["why"] = "construct not supported by Kani"
     if playback:
-        m = re.search(r"(#\[test\]\nfn kani_concrete_playback_[\s\S]*?\n\}\n)", text)
-        if m:
-            res["playback_test"] = m.group(1)
+        # Kani prints one unit test per failed check AND one per satisfied cover!: keep them all (distinct names) and let the
+        # native replay run every one of them; the counterexample is confirmed if any of them panics
+        ms = re.findall(r"(#\[test\]\nfn kani_concrete_playback_[\s\S]*?\n\}\n)", text)
+        if ms:
+            res["playback_test"] = "\n".join(dict.fromkeys(ms))
     res["tail"] = text[-1500:]
     return res
 
@@ -240,6 +242,8 @@ def native_playback(harness, test_src):
         cmd = ["cargo", "kani", "playback", "-Z", "concrete-playback"] + profile + ["--", "kani_concrete_playback"]
         p = subprocess.run(cmd, cwd=scratch, env=ENV, stdout=subprocess.PIPE, stderr=subprocess.STDOUT, text=True)
         t = p.stdout
+        with open(os.path.join(WORK, "kani_playback_last.log"), "w") as lf:  # kept for diagnosis of non-reproducing models
+            lf.write(test_src + "\n----\n" + t)
         key = "release" if profile else "dev"
         if "panicked at" in t or "FAILED" in t:
             m = re.search(r"panicked at [^\n]*\n([^\n]*)", t)
